@@ -117,10 +117,30 @@ pub use ax_fn::*;
 pub uninterp spec fn fmt_display<A: ?Sized>(a: &A) -> Seq<char>;
 pub uninterp spec fn fmt_debug<A: ?Sized>(a: &A) -> Seq<char>;
 
-/// `src/expr/keywords.rs::is_valid_identifier` uses `Chars::all` + unicode-xid tables: not under contract (DESIGN 4, C15)
-pub uninterp spec fn is_ident_spec(s: Seq<char>) -> bool;
+// unicode-xid: the per-character predicates are ASSUMED (table lookups in a foreign crate)
+pub uninterp spec fn xid_start(c: char) -> bool;
+pub uninterp spec fn xid_continue(c: char) -> bool;
+pub trait UnicodeXID: Sized {
+    fn is_xid_start(self) -> bool;
+    fn is_xid_continue(self) -> bool;
+}
+impl UnicodeXID for char {
+    #[verifier::external_body]
+    fn is_xid_start(self) -> (r: bool) ensures r == xid_start(self) { unimplemented!() }
+    #[verifier::external_body]
+    fn is_xid_continue(self) -> (r: bool) ensures r == xid_continue(self) { unimplemented!() }
+}
+/// C15: "a well-formed identifier": '_' or an XID_Start character, followed only by XID_Continue characters
+pub open spec fn is_ident_spec(s: Seq<char>) -> bool {
+    s.len() > 0 && (s[0] == '_' || xid_start(s[0])) && forall|i: int| 1 <= i < s.len() ==> xid_continue(#[trigger] s[i])
+}
+/// R17b: `chars.all(f)` is routed through this boundary function (same reason as R17); sound for any closure
 #[verifier::external_body]
-pub fn is_valid_identifier(name: &str) -> (r: bool) ensures r == is_ident_spec(name@) { unimplemented!() }
+pub fn chars_all<F: Fn(char) -> bool>(it: &mut core::str::Chars<'_>, f: F) -> (r: bool)
+    ensures
+        r ==> (forall|i: int| 0 <= i < (*old(it)).remaining().len() ==> call_ensures(f, (#[trigger] (*old(it)).remaining()[i],), true)),
+        !r ==> (exists|i: int| 0 <= i < (*old(it)).remaining().len() && call_ensures(f, (#[trigger] (*old(it)).remaining()[i],), false)),
+{ it.all(f) }
 
 // derived `Default` (ASSUMED: empty collections)
 impl Default for UserFunctions {
